@@ -9,6 +9,7 @@ import (
 	"sort"
 	"strings"
 	"sync"
+	"unsafe"
 
 	"verif/core"
 
@@ -373,6 +374,72 @@ func goCyclic(v reflect.Value) bool {
 	return walk(v, 0)
 }
 
+// implCacheTag reads (reflect + unsafe, read-only) the occupancy of the wrapper's element cache in goja:
+// for array/slice wrappers the non-nil slots over the whole capacity of valueCache (a '|' marks its length),
+// for struct wrappers the cached field names. "" if v is not such a wrapper; "?" if goja's layout changed.
+func implCacheTag(v goja.Value) (tag string) {
+	obj, ok := v.(*goja.Object)
+	if !ok || obj == nil {
+		return ""
+	}
+	defer func() {
+		if recover() != nil {
+			tag = "?"
+		}
+	}()
+	self := reflect.ValueOf(obj).Elem().FieldByName("self")
+	if !self.IsValid() {
+		return "?"
+	}
+	self = reflect.NewAt(self.Type(), unsafe.Pointer(self.UnsafeAddr())).Elem()
+	impl := self.Elem()
+	if impl.Kind() != reflect.Ptr || impl.IsNil() {
+		return ""
+	}
+	st := impl.Elem()
+	if st.Kind() != reflect.Struct {
+		return ""
+	}
+	vc := st.FieldByName("valueCache")
+	if !vc.IsValid() {
+		return ""
+	}
+	vc = reflect.NewAt(vc.Type(), unsafe.Pointer(vc.UnsafeAddr())).Elem()
+	var b strings.Builder
+	switch vc.Kind() {
+	case reflect.Slice:
+		n := vc.Len()
+		full := vc
+		if vc.Cap() > n {
+			full = vc.Slice(0, vc.Cap())
+		}
+		last := -1
+		for i := 0; i < full.Len(); i++ {
+			if !full.Index(i).IsNil() {
+				last = i
+			}
+		}
+		for i := 0; i <= last; i++ {
+			if i == n {
+				b.WriteByte('|')
+			}
+			if full.Index(i).IsNil() {
+				b.WriteByte('.')
+			} else {
+				b.WriteByte('x')
+			}
+		}
+	case reflect.Map:
+		var ks []string
+		for _, k := range vc.MapKeys() {
+			ks = append(ks, k.String())
+		}
+		sort.Strings(ks)
+		b.WriteString(strings.Join(ks, ","))
+	}
+	return b.String()
+}
+
 func capOfExport(v goja.Value) (c int) {
 	c = -1
 	defer func() { recover() }()
@@ -430,6 +497,10 @@ func runHistory(c *compiled, wk *wkind, path []int, df defects, full bool) (out 
 	}
 	h := c.rt.NewArray()
 
+	if len(wk.prefixIdx) > 0 {
+		// the kind's fixed preamble (e.g. "every element wrapper has been read") precedes every history
+		path = append(append(make([]int, 0, len(wk.prefixIdx)+len(path)), wk.prefixIdx...), path...)
+	}
 	threwOnWrapper := ""
 	for i, oi := range path {
 		o := wk.ops[oi]
@@ -486,6 +557,10 @@ func runHistory(c *compiled, wk *wkind, path []int, df defects, full bool) (out 
 	// the state key is taken before the final observation, which is not part of any continued history
 	// (reading through the wrappers registers element references, in the model as in the implementation)
 	key := m.stateKey(twinHost)
+	// white-box tag: which slots of goja's element-wrapper caches are occupied, INCLUDING the spare capacity
+	// behind the cache's length (stale entries there come back when the cache is re-extended in place). The
+	// model cannot see this hidden state; without the tag such states would be merged with clean ones.
+	key += "#C" + implCacheTag(w) + "|" + implCacheTag(h.Get("0")) + "|" + implCacheTag(h.Get("1"))
 	if threwOnWrapper != "" {
 		// A mutation attempt that threw must leave everything unchanged - also the hidden wrapper bookkeeping,
 		// which the model state cannot see. Such a state is therefore kept apart from the state before the
